@@ -20,6 +20,9 @@ use serde_json::{json, Value};
 pub enum C16Case {
     Static(StaticCase),
     Dynamic(DynCase),
+    /// a raw history of SatSolver operations (empty clauses, tautologies, reserve, assumptions on
+    /// unseen variables): shapes the argumentation solvers do not produce but the API admits
+    Raw(crate::props::c15::C15Case),
 }
 
 pub struct C16;
@@ -54,7 +57,15 @@ impl Property for C16 {
             }
             o
         };
-        if rng.chance(7, 10) {
+        if rng.chance(1, 10) {
+            let mut c = crate::props::c15::gen_case(run_seed);
+            c.process = false;
+            if let Backend::Ext { plan, vary_plan } = backend {
+                c.plan = plan;
+                c.vary_plan = vary_plan;
+            }
+            serde_json::to_value(C16Case::Raw(c)).unwrap()
+        } else if rng.chance(7, 10) {
             let mode = *rng.pick(&[Mode::C01, Mode::C02, Mode::C03, Mode::C04, Mode::C07]);
             let mut c = gen_static(&mut rng, mode);
             c.backend = backend;
@@ -93,6 +104,33 @@ impl Property for C16 {
                 };
                 (h, ch, format!("dynamic solver {:?}", c.solver))
             }
+            C16Case::Raw(c) => {
+                use crate::props::c15::SatOp;
+                use crustabri::sat::Literal;
+                let backend = Backend::Ext { plan: c.plan, vary_plan: c.vary_plan };
+                let (hub, chub) = crate::statics::make_hubs(c.oracle, backend, &None);
+                let mut s = crate::statics::factory_for(backend, &hub, &chub)();
+                let lits = |v: &[i32]| v.iter().map(|l| Literal::from(*l as isize)).collect::<Vec<Literal>>();
+                for op in &c.ops {
+                    match op {
+                        SatOp::Add(cl) => s.add_clause(lits(cl)),
+                        SatOp::Reserve(n) => s.reserve(*n),
+                        SatOp::Solve(a) => {
+                            // verdicts and models are C15's business; here only the instance text counts
+                            let _ = std::panic::catch_unwind(std::panic::AssertUnwindSafe(|| {
+                                let _ = s.solve_under_assumptions(&lits(a));
+                            }));
+                        }
+                    }
+                }
+                drop(s);
+                (hub, chub, "a raw SatSolver history on ExternalSatSolver".to_string())
+            }
+        };
+        let workload = match &case {
+            C16Case::Static(_) => "static",
+            C16Case::Dynamic(_) => "dynamic",
+            C16Case::Raw(_) => "raw",
         };
         let h = hub.borrow();
         r.harness_error = h.harness_error.clone();
@@ -106,7 +144,7 @@ impl Property for C16 {
                 r.violations.push(
                     Violation::new("C16", "dimacs-ill-formed", format!("instance sent at SAT call {} by {} is not well-formed DIMACS: {}", call, what, e))
                         .at("defect", classify(e))
-                        .at("workload", if matches!(case, C16Case::Static(_)) { "static" } else { "dynamic" }),
+                        .at("workload", workload),
                 );
             }
             if c.instances_checked >= 1 {
@@ -115,7 +153,7 @@ impl Property for C16 {
                 r.nontrivial = Some(d);
             }
         }
-        r.count(if matches!(case, C16Case::Static(_)) { "workload_static" } else { "workload_dynamic" }, 1);
+        r.count(&format!("workload_{}", workload), 1);
         r.interleaving = Some(h.result_seq);
         r
     }
@@ -133,6 +171,15 @@ impl Property for C16 {
                     let mut s = c.steps.clone();
                     s.remove(i);
                     out.push(serde_json::to_value(C16Case::Dynamic(DynCase { steps: s, ..c.clone() })).unwrap());
+                }
+                out
+            }
+            C16Case::Raw(c) => {
+                let mut out = vec![];
+                for i in 0..c.ops.len() {
+                    let mut ops = c.ops.clone();
+                    ops.remove(i);
+                    out.push(serde_json::to_value(C16Case::Raw(crate::props::c15::C15Case { ops, ..c.clone() })).unwrap());
                 }
                 out
             }
